@@ -178,7 +178,11 @@ func (r *Run) Finish() int {
 	var viol, knownHit, und []Obligation
 	for _, o := range obs {
 		perRule[o.Rule]++
-		constructs[o.Construct] = true
+		if o.Pos != "" {
+			constructs[o.Pos] = true
+		} else {
+			constructs[o.Construct] = true
+		}
 		switch o.Status {
 		case Discharged:
 			discharged++
@@ -271,7 +275,7 @@ func (r *Run) Finish() int {
 			"discharged":          discharged + len(knownHit),
 			"evaluations":         len(obs),
 			"distinct_nontrivial": len(constructs),
-			"rule":                "one obligation per (rule, construct) matched in /repo's current source; distinct = distinct construct keys; non-trivial = the rule's extractor matched a real site (floors guard against vacuous passes)",
+			"rule":                "one obligation per (rule, construct) matched in /repo's current source; distinct_nontrivial = distinct source sites (file:line, or the construct key for whole-program obligations) at which an obligation was generated; non-trivial = the rule's extractor matched a real site (floors guard against vacuous passes)",
 			"samples":             samples,
 			"rules":               rules,
 			"analysed":            r.analysed,
@@ -284,7 +288,7 @@ func (r *Run) Finish() int {
 		"wall_s":      time.Since(r.start).Seconds(),
 		"violations":  len(viol) + len(und),
 	}
-	if r.replay == "" {
+	if r.replay == "" && os.Getenv("VERIF_NO_EVIDENCE") == "" {
 		os.MkdirAll(filepath.Join(r.VerifDir, "evidence"), 0o755)
 		b, _ := json.MarshalIndent(ev, "", " ")
 		if err := os.WriteFile(filepath.Join(r.VerifDir, "evidence", r.Property+".json"), b, 0o644); err != nil {
